@@ -75,10 +75,25 @@ Theorem C28_ita_refuted : exists s,
 Proof. exists (st0 true [] [mkI pa MReg (mkHash 0 0) 0 1 true] [mkW pa MReg 1 2 5 false false]). split; reflexivity. Qed.
 Print Assumptions C28_ita_refuted.
 
+(* a symbolic link named .gitignore (.gitattributes, .mailmap, .gitmodules): go-git
+   refuses to write the tree, git write-tree records it *)
+Theorem C28_commit_symlink_refuted : exists s, g_commit s = None /\ List.length (s_tree_files s) = 1%nat.
+Proof.
+  exists (st0 true [] [mkI (bytes_of_string ".gitignore") MLink (mkHash 0 1) 3 5 false] []). split; reflexivity.
+Qed.
+Print Assumptions C28_commit_symlink_refuted.
+
+(* otherwise Commit records the tree of C28_write_tree *)
+Theorem C28_commit_files : forall s,
+  existsb symlink_meta (st_index s) = false -> g_commit s = Some (g_commit_files s).
+Proof. intros s H. unfold g_commit. now rewrite H. Qed.
+Print Assumptions C28_commit_files.
+
 (* --- rm of a tracked file that is not a directory in the worktree *)
 Theorem C28_rm_file_eq : forall s p,
   is_some (find_i (st_index s) p) = true ->
   is_dir_wt s p && negb (has_file s p) = false ->
+  existsb (fun f => under (wf_path f) p) (st_wt s) = false ->
   g_rm s p = s_rm s p.
 Proof. exact rm_file_eq. Qed.
 Print Assumptions C28_rm_file_eq.
@@ -93,6 +108,21 @@ Proof.
   split; eexists; split; reflexivity.
 Qed.
 Print Assumptions C28_rm_dir_missing_refuted.
+
+(* rm of an entry whose parent directory has been replaced by a file: go-git fails and keeps it *)
+Theorem C28_rm_below_file_refuted : exists s s', g_rm s [97; 47; 98] = RErr s /\ s_rm s [97; 47; 98] = ROk s' /\ st_index s' = [].
+Proof.
+  eexists (st0 true [] [mkI [97; 47; 98] MReg (mkHash 0 1) 2 5 false] [mkW pa MReg 2 2 9 false false]), _.
+  repeat split; reflexivity.
+Qed.
+Print Assumptions C28_rm_below_file_refuted.
+
+(* rm of a tracked directory that is already gone from the worktree: go-git fails, git unstages its entries *)
+Theorem C28_rm_deleted_dir_refuted : exists s s', g_rm s pd = RErr s /\ s_rm s pd = ROk s' /\ st_index s' = [].
+Proof.
+  eexists (st0 true [] [mkI pdx MReg (mkHash 0 1) 2 5 false] []), _. repeat split; reflexivity.
+Qed.
+Print Assumptions C28_rm_deleted_dir_refuted.
 
 (* rm of a directory without tracked files: go-git succeeds, git fails *)
 Theorem C28_rm_untracked_dir_refuted : exists s s', g_rm s pd = ROk s' /\ s_rm s pd = RErr s.
@@ -139,7 +169,28 @@ Proof.
 Qed.
 Print Assumptions C28_clean_subdir_refuted.
 
+(* an empty directory excluded by .gitignore is removed by Clean{Dir}, kept by git clean -f -d *)
+Theorem C28_clean_ignored_dir_refuted : exists dirs,
+  g_clean_empty_dirs dirs = [] /\ s_clean_empty_dirs dirs = [[98; 117; 105; 108; 100; 47; 101]].
+Proof. exists [([98; 117; 105; 108; 100; 47; 101], true); ([101], false)]. split; reflexivity. Qed.
+Print Assumptions C28_clean_ignored_dir_refuted.
+
 (* --- add *)
+(* a file below a path that is an index entry: go-git keeps the stale entry
+   (directory/file conflict in the index), git drops it *)
+Theorem C28_add_below_tracked_file_refuted : exists s s1 s2,
+  g_add s [97; 47; 98] = ROk s1 /\ s_add s [97; 47; 98] = ROk s2 /\
+  map ie_path (st_index s1) = [pa; [97; 47; 98]] /\ map ie_path (st_index s2) = [[97; 47; 98]].
+Proof.
+  eexists (st0 true [mkT pa MReg (mkHash 0 1)] [mkI pa MReg (mkHash 0 1) 2 5 false] [mkW [97; 47; 98] MReg 2 1 9 false false]), _, _.
+  repeat split; reflexivity.
+Qed.
+Print Assumptions C28_add_below_tracked_file_refuted.
+
+(* (C28_rm_untracked_dir_refuted above differs from git only in the result tag —
+   neither side changes anything — and is not a finding: the property is about
+   index entries and remaining files) *)
+
 (* an ignored untracked file named explicitly is staged; git refuses *)
 Theorem C28_add_ignored_refuted : exists s s', g_add s pa = ROk s' /\ st_index s' <> [] /\ s_add s pa = RErr s.
 Proof.
